@@ -96,6 +96,9 @@ def gen_scenario(rnd, i, stop):
         # flag and the wake-up, between a route's message and its wake-up
         sites = ["router.shutdown.woke", "router.shutdown.flag", "router.add.msg"]
         sc["stalls"] = {rnd.choice(sites): rnd.choice([300, 2000, 8000]) for _ in range(rnd.randrange(1, 3))}
+        # callbacks that are slow to destroy: shutdown() must not return (and closures must not be reported downstream)
+        # before they are gone
+        sc["dropsleep"] = [rnd.choice([0, 0, 3000, 15000]) for _ in range(n)]
     return sc
 
 
